@@ -15,7 +15,7 @@ from ..poly import Poly
 
 ID = 'C11'
 LEVEL = 'other'
-TECHNIQUE = 'jaxpr-level symbolic execution of BroadcastDiagonalOperator/DiagonalOperator.mv + z3 against explicit index arithmetic; legality compared with an independent predicate'
+TECHNIQUE = 'jaxpr-level symbolic execution of BroadcastDiagonalOperator/DiagonalOperator.mv + z3 against explicit index arithmetic; legality compared with an independent predicate; as_matrix() and the inverse of the strict operator against mv'
 EXPLANATION = ('For every (leaf shapes, value shape, axis specification, strict/broadcast) of a bounded family the operator is '
                'constructed; legality (must raise / must construct) is compared with an independent predicate, and for legal '
                'specifications mv is traced with symbolic values and symbolic input and compared by z3 with '
@@ -170,6 +170,31 @@ def run_case(key, twin=False):
     xl = jax.tree.leaves(x, is_leaf=E.is_sym)
     want = jax.tree.unflatten(jax.tree.structure(ins), [oracle_apply(v, xi, vs, ax, xs, strict, 2 if twin else 1) for xi, xs in zip(xl, shapes)])
     res = [dec.decide(ctx, pairs(got, want, ctx))]
+    if strict and res[0].status == 'unsat' and sum(int(np.prod(s_)) for s_ in shapes) <= 24:
+        # the strict operator has its own as_matrix() and inverse: both must place the values on the same axes as mv
+        def flat(t):
+            return jnp.concatenate([l.ravel() for l in jax.tree.leaves(t)])
+        try:
+            dm, _, _ = E.run(ctx, lambda v, x: cls(v, axis_destination=ax, in_structure=ins).as_matrix() @ flat(x), [('v', S(*vs), 'sym'), ('x', ins, 'sym')])
+            r2 = dec.decide(ctx, pairs(dm, got, ctx))
+        except E.Unsupported:
+            raise
+        except Exception as ex:  # noqa: BLE001
+            return violation(f'as_matrix() of {cls.__name__}(values{vs}, axis_destination={ax}) on {shapes} raises {type(ex).__name__}: {str(ex)[:100]}',
+                             signature=f'c11-as-matrix-raises:{key}', kind='as_matrix')
+        if r2.status == 'sat':
+            return violation(f'as_matrix() @ x differs from mv(x) for {key}', model=r2.model, signature=f'c11-as-matrix:{key}', kind='as_matrix', twin=twin, **dec.stats())
+        if r2.status == 'unknown':
+            res = [r2]
+        else:
+            # D.I(D x) = x wherever every value is non-zero
+            iv, _, _ = E.run(ctx, lambda v, x: (lambda o: o.I.mv(o.mv(x)))(cls(v, axis_destination=ax, in_structure=ins)), [('v', S(*vs), 'sym'), ('x', ins, 'sym')])
+            nz = [lambda enc, a=a: enc.term(a) != 0 for a in E.flat_elems(v)]
+            r3 = dec.decide(ctx, pairs(iv, x, ctx), assumptions=nz)
+            if r3.status == 'sat':
+                return violation(f'D.I(D x) != x for {key} (all values non-zero)', model=r3.model, signature=f'c11-inverse:{key}', kind='inverse', twin=twin, **dec.stats())
+            if r3.status == 'unknown':
+                res = [r3]
     common = dict(prims=sorted(ctx.prims), **dec.stats())
     nob = common.pop('obligations')
     if res[0].status == 'unsat':
@@ -224,6 +249,16 @@ def replay(key, model, info):
     x = model_tree(model, 'x', ins)
     op = _cls(strict)(jnp.asarray(v), axis_destination=ax, in_structure=ins)
     got = op.mv(x)
+    if kind == 'as_matrix':
+        flat = lambda t: np.concatenate([np.asarray(l).ravel() for l in jax.tree.leaves(t)])  # noqa: E731
+        try:
+            a = np.asarray(op.as_matrix()) @ flat(x)
+        except Exception as ex:  # noqa: BLE001
+            return True, f'as_matrix() raises {type(ex).__name__}: {str(ex)[:100]}'
+        return (not np.allclose(a, flat(got), rtol=1e-9, atol=1e-12)), f'{key}: as_matrix() @ x = {a} but mv(x) = {flat(got)}'
+    if kind == 'inverse':
+        close, msg = trees_close(op.I.mv(got), x)
+        return (not close), f'{key}: D.I(D x) vs x: {msg}'
     want = []
     for xi, xs in zip(jax.tree.leaves(x), shapes):
         L, pos, oshape = oracle_plan(vs, ax, xs, strict)
